@@ -25,7 +25,11 @@ class LoopInv:
     decreases: optional variant function (int), proved to decrease and stay >= 0
     """
 
-    def __init__(self, inv, vars=None, index="i", decreases=None, modifies=None, seq=None, step=None):
+    def __init__(self, inv, vars=None, index="i", decreases=None, modifies=None, seq=None, step=None, inductive=False):
+        # inductive=True: also a loop over a CONCRETE list/tuple is checked by invariant (init, one arbitrary
+        # position chosen among all positions, exit) instead of being unrolled - linear instead of exponential
+        # in the number of independent branches in the body
+        self.inductive = inductive
         self.step = [] if step is None else (step if isinstance(step, (list, tuple)) else [step])
         self.inv = inv if isinstance(inv, (list, tuple)) else [inv]
         self.vars = vars or {}
@@ -129,6 +133,14 @@ def implies(a, b):
 
 def iff(a, b):
     return bool(a) == bool(b)
+
+
+def sub(s, start, n):
+    """s[start:start+n] for 0 <= start, 0 <= n (clamped at the end of s); the empty sequence when start or n is
+    negative or start is past the end - exactly SMT-LIB seq.extract, so no Python negative-index wrap-around."""
+    if start < 0 or n <= 0 or start >= len(s):
+        return s[0:0]
+    return s[start:start + n]
 
 
 def forall(lo, hi, pred):
